@@ -44,9 +44,18 @@ def answerPca (fs : List (String × String)) : String :=
       let xscale := if xmax == 0 then 1 else xmax      -- relative: no absolute floor (data in tiny units are judged as strictly)
       -- 1. routines called directly
       let cmean := cmpMat (vecAsMat mean.get) (vecAsMat μD.get) (εtight * xscale)
-      let ccov := cmpMat cov.get CU.get (εrel * scale)
+      --    covariance entries are judged PER ENTRY, relative to the extents of the two features involved (the rounding of
+      --    Σ(x−m)_a(x−m)_b/N is relative to spread_a·spread_b, not to the largest entry): a small entry of an anisotropic
+      --    data set is constrained as strictly as the largest one
+      let sprD : DVec D Rat := DVec.ofFn fun a => Cert.maxFin N fun i => absR (X.get i a - μD.get a)
+      let entryBad (M : Mat D D Rat) : Bool :=
+        (List.finRange D).any fun a => (List.finRange D).any fun b =>
+          decide (absR (M a b - CU.get a b) > εrel * (sprD.get a * sprD.get b))
+      let ccov0 := cmpMat cov.get CU.get (εrel * scale)
+      let ccov := if !ccov0.isBad && entryBad cov.get then Cmp.mismatch 0 0 0 1 else ccov0
       -- 2. what the public API handed to the solver
-      let cpre := cmpMat pre.get CU.get (εrel * scale)
+      let cpre0 := cmpMat pre.get CU.get (εrel * scale)
+      let cpre := if !cpre0.isBad && entryBad pre.get then Cmp.mismatch 0 0 0 1 else cpre0
       let tag (c : Cmp) : String := if exact && !c.isExact then "INEXACT-" ++ c.show else c.show
       --   `exactmean=1`: only the mean is free of rounding (N = 2^m, feature values of up to 40 bits): equality demanded there
       let exactMean := exact || get "exactmean" == some "1"
@@ -77,8 +86,13 @@ def answerPca (fs : List (String × String)) : String :=
       let covY : Mat d d Rat := fun a b => sumFin N (fun i => YD.get i a * YD.get i b) / (N : Rat)
       let vdef := Cert.maxAbs (fun a b => covY a b - (if a = b then lam.get a else 0))
       let cm := Cert.maxAbs (vecAsMat (fun a => sumFin N (fun i => YD.get i a) / (N : Rat)))
+      --    per column: variance of embedding column j vs lam j, relative to lam j plus the absolute accuracy 2^-48·scale of a
+      --    symmetric eigensolver (a retained direction that is tiny against the leading one is still constrained)
+      let colBad := (List.finRange d).find? fun j =>
+        decide (absR (covY j j - lam.get j) > εeig * absR (lam.get j) + pow2 (-48) * scale)
       let varTxt :=
-        if vdef > εeig * scale then s!"FAIL-covariance-of-embedding:{showMag vdef}>{showMag (εeig * scale)}"
+        if colBad.isSome then s!"FAIL-column-variance:col{(colBad.map (·.1)).getD 0}"
+        else if vdef > εeig * scale then s!"FAIL-covariance-of-embedding:{showMag vdef}>{showMag (εeig * scale)}"
         else if cm > εrel * xscale then s!"FAIL-column-means:{showMag cm}"
         else s!"ok:{showMag vdef}"
       let cs := [cmean, ccov, cpre, cP, cmu, cy]
